@@ -85,6 +85,8 @@ var pureLib = map[string]bool{
 	"os.IsNotExist": true, "os.IsExist": true, "os.Getpid": false, "os.Getenv": false,
 	"bufio.NewScanner": false, "bufio.Scanner.Scan": false, "bufio.Scanner.Text": false, "bufio.Scanner.Err": true, "bufio.Scanner.Bytes": false, "bufio.Scanner.Buffer": false,
 	"os.File.Name": true, "os.File.Close": false, "os.File.Fd": true, "os.FileInfo.Name": true, "FileInfo.Name": true, "os.FileInfo.Size": true, "FileInfo.Size": true, "os.FileInfo.ModTime": true, "os.FileInfo.IsDir": true, "os.FileInfo.Mode": true,
+	"bytes.Buffer.String": false, "bytes.Buffer.Bytes": false, "bytes.Buffer.Len": false, "bytes.Buffer.Write": false, "bytes.Buffer.WriteString": false,
+	"io.MultiWriter": false, "json.Marshal": false, "encoding/json.Marshal": false, "json.NewDecoder": false, "json.NewEncoder": false,
 	"io.Reader.Read": false, "io.ReadCloser.Close": false, "io.Closer.Close": false, "ReadCloser.Close": false, "Closer.Close": false, "bytes.TrimSpace": false, "bytes.Compare": true, "bytes.NewReader": false, "bytes.NewBuffer": false, "bytes.NewBufferString": false,
 	"io/ioutil.NopCloser": false, "ioutil.NopCloser": false, "io.MultiReader": false, "io.TeeReader": false, "io.LimitReader": false,
 	"math.MaxInt64": true, "math.Ceil": true, "math.Floor": true,
